@@ -15,6 +15,7 @@ def register(reg):
     register_strings(reg)
     register_tree(reg)
     register_formats(reg)
+    register_stubs(reg)
 
     @reg.specfun("as_bytes")
     def as_bytes(ex, st, args, cx):
@@ -276,3 +277,15 @@ def register_formats(reg):
     attr("pf_kwargs", "$pf_kwargs")
     attr("fmt_name", "$fmt_name")
     attr("fmt_opts", "$fmt_opts")
+
+
+def register_stubs(reg):
+    @reg.specfun("class_name_of")
+    def class_name_of(ex, st, args, cx):
+        w, V = ex.w, ex.w.V
+        return ex.o.str_(w.fun("class_name", w.Cls, "str")(V.c(args[0].e)))
+
+    @reg.specfun("class_module_of")
+    def class_module_of(ex, st, args, cx):
+        w, V = ex.w, ex.w.V
+        return ex.o.str_(w.fun("class_module", w.Cls, "str")(V.c(args[0].e)))
